@@ -118,6 +118,66 @@ func genPinch(r *RNG, G int64) (clip.Paths64, clip.Paths64) {
 	return s, c
 }
 
+func rect64(x0, y0, x1, y1 int64) clip.Path64 {
+	return clip.Path64{{X: x0, Y: y0}, {X: x1, Y: y0}, {X: x1, Y: y1}, {X: x0, Y: y1}}
+}
+
+// genCavities: an arch standing on a base bar (glued along a horizontal line), k pairs of shelves growing from the
+// left and right inner walls that overlap in x and touch along one horizontal segment (each pair cuts the cavity in
+// two), and a small island in every compartment.  Optionally mirrored top-bottom or turned by 90 degrees.
+func genCavities(r *RNG) clip.Paths64 {
+	u := []int64{1, 2, 5, 10}[r.Intn(4)]
+	k := 1 + r.Intn(3)
+	W := int64(100)
+	wall := int64(20)
+	top := int64(0)
+	compH := int64(40)
+	th := int64(10) // shelf thickness
+	H := top + 10 + int64(k+1)*compH + int64(k)*2*th
+	var ps clip.Paths64
+	ps = append(ps, rect64(0, H, W, H+10)) // base bar
+	ps = append(ps, clip.Path64{{X: 0, Y: top}, {X: W, Y: top}, {X: W, Y: H}, {X: W - wall, Y: H}, {X: W - wall, Y: top + 10}, {X: wall, Y: top + 10}, {X: wall, Y: H}, {X: 0, Y: H}})
+	y := top + 10
+	for j := 0; j <= k; j++ {
+		// island in this compartment
+		ix := wall + 5 + r.Range(0, 30)
+		ps = append(ps, rect64(ix, y+10, ix+10+r.Range(0, 10), y+10+r.Range(8, 18)))
+		y += compH
+		if j == k {
+			break
+		}
+		// a pair of shelves meeting along y
+		m1, m2 := 40+r.Range(0, 10), 50+r.Range(1, 10)
+		if r.Bool() {
+			ps = append(ps, rect64(wall-10, y, m2, y+th), rect64(m1, y+th, W-wall+10, y+2*th))
+		} else {
+			ps = append(ps, rect64(m1, y, W-wall+10, y+th), rect64(wall-10, y+th, m2, y+2*th))
+		}
+		y += 2 * th
+	}
+	// shuffle the order of the pieces
+	for i := len(ps) - 1; i > 0; i-- {
+		j := r.Intn(i + 1)
+		ps[i], ps[j] = ps[j], ps[i]
+	}
+	mode := r.Intn(4)
+	for _, p := range ps {
+		for i := range p {
+			x, yy := p[i].X, p[i].Y
+			switch mode {
+			case 1:
+				yy = H + 10 - yy
+			case 2:
+				x, yy = yy, x
+			case 3:
+				x, yy = H+10-yy, x
+			}
+			p[i] = clip.Point64{X: x * u, Y: yy * u}
+		}
+	}
+	return ps
+}
+
 func cmdC04(r *RNG, n int, e *Emitter, args []string) {
 	if len(args) > 0 {
 		for i, cc := range loadCorpusC01(args[0]) {
@@ -137,7 +197,12 @@ func cmdC04(r *RNG, n int, e *Emitter, args []string) {
 		info.Grid = G
 		var s, c clip.Paths64
 		pinch := false
-		switch r.Intn(5) {
+		switch r.Intn(6) {
+		case 5:
+			// a frame glued from pieces along horizontal lines whose cavity is cut into several holes by shelves that
+			// meet along horizontal segments; an island in each hole (rings split off rings split off rings)
+			s, c = genCavities(r), clip.Paths64{}
+			info.Kinds = append(info.Kinds, "cavities")
 		case 4:
 			s, c = genPinch(r, G)
 			pinch = true
